@@ -344,7 +344,7 @@ Lemma finish_user_cases : forall e db name pre ev c,
   let r := finish_user e db name pre ev c in
   cache' r = c /\
   (events r = ev \/ events r = ev ++ [EvValidate db name]) /\
-  ((out r = Admitted db name /\ replies r = pre ++ auth_tail) \/
+  ((out r = PoolAdmitted db name /\ replies r = pre ++ auth_tail) \/
    (out r = Rejected WPoolDown /\ replies r = pre ++ [RError (EPoolDown db name); RReadyForQuery] /\
     validated e = false /\ validate_ok e = false)).
 Proof.
@@ -471,7 +471,7 @@ Qed.
 
 (** *** soundness of admission to a pool *)
 Lemma admit_sound : forall c sd salt payload rest e db name,
-  out (startup md5 chk c sd salt payload rest e) = Admitted db name ->
+  out (startup md5 chk c sd salt payload rest e) = PoolAdmitted db name ->
   ident payload = IdOk name db /\ sd = false /\ is_admin_db db = false /\ configured c db name /\
   (trust c db name \/
    exists body tail s, read_password chk rest = PwOk body tail /\
@@ -502,7 +502,7 @@ Qed.
 (** the same with the answer located in the byte stream *)
 Lemma admit_sound_frame : forall c sd salt payload rest e db name,
   Forall byte_ok (firstn 5 rest) ->
-  out (startup md5 chk c sd salt payload rest e) = Admitted db name ->
+  out (startup md5 chk c sd salt payload rest e) = PoolAdmitted db name ->
   configured c db name /\
   (trust c db name \/
    exists s tail, secret_of c e db name s /\ rest = password_frame (expected md5 name s salt) ++ tail).
@@ -627,10 +627,10 @@ Proof.
 Qed.
 
 Lemma shutdown_no_pool_admission : forall c salt stream e db name,
-  out (entry md5 chk c true salt stream e) <> Admitted db name.
+  out (entry md5 chk c true salt stream e) <> PoolAdmitted db name.
 Proof.
   intros c salt stream e db name H.
-  assert (Hs : forall payload rest, out (startup md5 chk c true salt payload rest e) <> Admitted db name).
+  assert (Hs : forall payload rest, out (startup md5 chk c true salt payload rest e) <> PoolAdmitted db name).
   { intros payload rest Hx. apply admit_sound in Hx. destruct Hx as (_ & Hsd & _). discriminate. }
   unfold entry in H.
   destruct (get_startup stream) as [[| |] payload rest| | |]; try discriminate.
@@ -708,3 +708,279 @@ Proof.
 Qed.
 
 End Theorems.
+
+(** ** wrong answers *)
+
+Lemma firstn_neq : forall (A : Type) (k : nat) (l : list A), (k < length l)%nat -> firstn k l <> l.
+Proof.
+  intros A k l Hk E. assert (Hl : length (firstn k l) = length l) by (rewrite E; reflexivity).
+  rewrite firstn_length in Hl. lia.
+Qed.
+
+Lemma app_neq : forall (A : Type) (l x : list A), x <> [] -> l ++ x <> l.
+Proof.
+  intros A l x Hx E. assert (Hl : length (l ++ x) = length l) by (rewrite E; reflexivity).
+  rewrite app_length in Hl. destruct x; [contradiction|cbn in Hl; lia].
+Qed.
+
+Lemma pg_hexdigit_mod : forall a b, pg_hexdigit a = pg_hexdigit b -> (a mod 16 = b mod 16)%N.
+Proof.
+  intros a b. unfold pg_hexdigit. cbv zeta.
+  pose proof (N.mod_upper_bound a 16 ltac:(discriminate)). pose proof (N.mod_upper_bound b 16 ltac:(discriminate)).
+  destruct (a mod 16 <? 10)%N eqn:Ea; destruct (b mod 16 <? 10)%N eqn:Eb;
+    [apply N.ltb_lt in Ea; apply N.ltb_lt in Eb|apply N.ltb_lt in Ea; apply N.ltb_ge in Eb|apply N.ltb_ge in Ea; apply N.ltb_lt in Eb|apply N.ltb_ge in Ea; apply N.ltb_ge in Eb]; lia.
+Qed.
+
+Lemma pg_hex_inj : forall x y, Forall byte_ok x -> Forall byte_ok y -> pg_hex x = pg_hex y -> x = y.
+Proof.
+  induction x as [|a x IH]; destruct y as [|b y]; intros Hx Hy H; try reflexivity; try discriminate.
+  cbn [pg_hex flat_map app] in H. inversion H as [[H1 H2 H3]].
+  inversion Hx as [|? ? Ha Hx']; inversion Hy as [|? ? Hb Hy']; subst. unfold byte_ok in *.
+  apply pg_hexdigit_mod in H1. apply pg_hexdigit_mod in H2.
+  assert (a = b).
+  { assert (a / 16 < 16)%N by (apply N.div_lt_upper_bound; lia).
+    assert (b / 16 < 16)%N by (apply N.div_lt_upper_bound; lia).
+    rewrite (N.mod_small (a / 16)) in H1 by assumption. rewrite (N.mod_small (b / 16)) in H1 by assumption.
+    rewrite (N.div_mod a 16) by discriminate. rewrite (N.div_mod b 16) by discriminate. rewrite H1, H2. reflexivity. }
+  subst b. f_equal. apply IH; assumption.
+Qed.
+
+Section Wrong.
+Variable md5 : bytes -> bytes.
+Variable chk : bool.
+
+Lemma other_salt_other_answer : forall h salt salt',
+  Forall byte_ok (md5 (h ++ salt)) -> Forall byte_ok (md5 (h ++ salt')) ->
+  md5 (h ++ salt') <> md5 (h ++ salt) ->
+  pg_md5_of_shadow md5 h salt' <> pg_md5_of_shadow md5 h salt.
+Proof.
+  intros h salt salt' B1 B2 Hne E. unfold pg_md5_of_shadow in E.
+  apply app_inv_head in E. apply app_inv_tail in E. apply Hne. apply pg_hex_inj; assumption.
+Qed.
+
+(** who is challenged with an MD5 request *)
+Definition user_login (c : cfg) (payload name db : bytes) (p : pool) (u : user) : Prop :=
+  ident payload = IdOk name db /\ is_admin_db db = false /\ served c db name p u /\ u_auth u = MD5.
+Definition admin_login (c : cfg) (payload name db : bytes) : Prop :=
+  ident payload = IdOk name db /\ is_admin_db db = true /\ admin_auth c = MD5.
+
+Lemma startup_user : forall c salt payload rest e name db p u,
+  user_login c payload name db p u ->
+  startup md5 chk c false salt payload rest e = user_md5 md5 chk c e p u db name salt rest.
+Proof.
+  intros c salt payload rest e name db p u (Hi & Ha & Hs & Hu). unfold startup.
+  rewrite Hi, Ha. cbn [negb andb]. rewrite (served_get_pool _ _ _ _ _ Hs), Hu. reflexivity.
+Qed.
+
+Lemma startup_admin : forall c sd salt payload rest e name db,
+  admin_login c payload name db ->
+  startup md5 chk c sd salt payload rest e = admin_md5 md5 chk c e name salt rest.
+Proof.
+  intros c sd salt payload rest e name db (Hi & Ha & Hm). unfold startup.
+  rewrite Hi, Ha. cbn [negb andb]. rewrite Hm. reflexivity.
+Qed.
+
+(** any well-framed answer that is not the MD5 answer for a secret of the user is refused with
+    the password error, and nothing else is said *)
+Lemma wrong_response_rejected : forall c salt payload rest e name db p u body tail,
+  user_login c payload name db p u ->
+  rest = password_frame body ++ tail -> blen body + 4 < 2147483648 ->
+  (forall s, secret_of c e db name s -> body <> expected md5 name s salt) ->
+  let r := startup md5 chk c false salt payload rest e in
+  exists w, out r = Rejected w /\
+    (w = WInvalidPassword \/ w = WRefetchFailed \/ w = WPassthrough \/ w = WAuthImpossible) /\
+    replies r = [RMd5Request salt; RError (EWrongPassword name)].
+Proof.
+  intros c salt payload rest e name db p u body tail Hl Hr Hb Hs r. subst r.
+  rewrite (startup_user _ _ _ _ _ _ _ _ _ Hl).
+  assert (Hp : read_password chk rest = PwOk body tail) by (subst rest; apply read_password_frame; assumption).
+  destruct Hl as (_ & _ & Hsv & _).
+  destruct (user_md5_cases md5 chk c e p u db name salt rest) as [(b & t & ev & c' & Hr' & Hv & _)|[(w & Ho & _ & _ & _ & _ & Hw)|(_ & _ & _ & Hx)]].
+  - rewrite Hp in Hr'. inversion Hr'; subst b t.
+    destruct (valid_body_secret md5 _ _ _ _ _ _ _ _ Hsv Hv) as (s & S1 & S2). exfalso. exact (Hs s S1 S2).
+  - destruct (Hw _ _ Hp) as [W1 W2]. exists w. auto.
+  - rewrite Hp in Hx. discriminate.
+Qed.
+
+Lemma wrong_admin_response_rejected : forall c sd salt payload rest e name db body tail,
+  admin_login c payload name db ->
+  rest = password_frame body ++ tail -> blen body + 4 < 2147483648 ->
+  body <> pg_md5 md5 (admin_user c) (admin_password c) salt ->
+  let r := startup md5 chk c sd salt payload rest e in
+  out r = Rejected WInvalidPassword /\ replies r = [RMd5Request salt; RError (EWrongPassword name)].
+Proof.
+  intros c sd salt payload rest e name db body tail Hl Hr Hb Hne r. subst r.
+  rewrite (startup_admin _ _ _ _ _ _ _ _ Hl).
+  assert (Hp : read_password chk rest = PwOk body tail) by (subst rest; apply read_password_frame; assumption).
+  destruct (admin_md5_cases md5 chk c e name salt rest) as (_ & _ & [(b & t & Hr' & Hb' & _)|[(w & Ho & _ & _ & _ & Hw)|(_ & _ & Hx)]]).
+  - rewrite Hp in Hr'. assert (Hbb : body = b) by congruence. rewrite hash_password_eq in Hb'. congruence.
+  - destruct (Hw _ _ Hp) as (-> & W2 & _). auto.
+  - rewrite Hp in Hx. discriminate.
+Qed.
+
+(** a user whose only secret is the configured cleartext password *)
+Definition cleartext_only (p : pool) (u : user) (pw : bytes) : Prop := u_password u = Some pw /\ p_aq p = false.
+
+Lemma cleartext_only_secret : forall c e db name p u pw s,
+  served c db name p u -> cleartext_only p u pw -> secret_of c e db name s -> s = Clear pw.
+Proof.
+  intros c e db name p u pw s Hsv [Hp Hq] (p' & u' & Hsv' & Hc).
+  destruct (served_unique _ _ _ _ _ _ _ Hsv Hsv') as [<- <-].
+  destruct Hc as [(pw' & H1 & H2)|[(h & H1 & _)|(h & H1 & _)]]; congruence.
+Qed.
+
+Lemma truncated_rejected : forall c salt payload e name db p u pw k tail,
+  user_login c payload name db p u -> cleartext_only p u pw ->
+  (k < length (pg_md5 md5 name pw salt))%nat -> blen (pg_md5 md5 name pw salt) + 4 < 2147483648 ->
+  let r := startup md5 chk c false salt payload (password_frame (firstn k (pg_md5 md5 name pw salt)) ++ tail) e in
+  exists w, out r = Rejected w /\ replies r = [RMd5Request salt; RError (EWrongPassword name)].
+Proof.
+  intros c salt payload e name db p u pw k tail Hl Hc Hk Hb r. subst r.
+  destruct (wrong_response_rejected c salt payload _ e name db p u (firstn k (pg_md5 md5 name pw salt)) tail Hl eq_refl) as (w & Ho & _ & Hr).
+  - unfold blen in *. rewrite firstn_length. lia.
+  - intros s Hs. destruct Hl as (_ & _ & Hsv & _). rewrite (cleartext_only_secret _ _ _ _ _ _ _ _ Hsv Hc Hs).
+    cbn [expected]. apply firstn_neq. assumption.
+  - exists w. auto.
+Qed.
+
+Lemma extended_rejected : forall c salt payload e name db p u pw extra tail,
+  user_login c payload name db p u -> cleartext_only p u pw ->
+  extra <> [] -> blen (pg_md5 md5 name pw salt ++ extra) + 4 < 2147483648 ->
+  let r := startup md5 chk c false salt payload (password_frame (pg_md5 md5 name pw salt ++ extra) ++ tail) e in
+  exists w, out r = Rejected w /\ replies r = [RMd5Request salt; RError (EWrongPassword name)].
+Proof.
+  intros c salt payload e name db p u pw extra tail Hl Hc Hx Hb r. subst r.
+  destruct (wrong_response_rejected c salt payload _ e name db p u (pg_md5 md5 name pw salt ++ extra) tail Hl eq_refl Hb) as (w & Ho & _ & Hr).
+  - intros s Hs. destruct Hl as (_ & _ & Hsv & _). rewrite (cleartext_only_secret _ _ _ _ _ _ _ _ Hsv Hc Hs).
+    cbn [expected]. apply app_neq. assumption.
+  - exists w. auto.
+Qed.
+
+(** replay: the right answer for another salt, provided the digest separates the two inputs *)
+Lemma replay_rejected : forall c salt salt' payload e name db p u pw tail,
+  user_login c payload name db p u -> cleartext_only p u pw ->
+  (forall x, Forall byte_ok (md5 x)) ->
+  md5 (pg_shadow_hash md5 name pw ++ salt') <> md5 (pg_shadow_hash md5 name pw ++ salt) ->
+  blen (pg_md5 md5 name pw salt') + 4 < 2147483648 ->
+  let r := startup md5 chk c false salt payload (password_frame (pg_md5 md5 name pw salt') ++ tail) e in
+  exists w, out r = Rejected w /\ replies r = [RMd5Request salt; RError (EWrongPassword name)].
+Proof.
+  intros c salt salt' payload e name db p u pw tail Hl Hc Hbytes Hne Hb r. subst r.
+  destruct (wrong_response_rejected c salt payload _ e name db p u (pg_md5 md5 name pw salt') tail Hl eq_refl Hb) as (w & Ho & _ & Hr).
+  - intros s Hs. destruct Hl as (_ & _ & Hsv & _). rewrite (cleartext_only_secret _ _ _ _ _ _ _ _ Hsv Hc Hs).
+    cbn [expected]. unfold pg_md5. apply other_salt_other_answer; auto.
+  - exists w. auto.
+Qed.
+
+(** any other message in place of the PasswordMessage: refused, nothing more is said *)
+Lemma not_p_rejected : forall c sd salt payload e name db code r0,
+  code <> 112%N ->
+  ((exists p u, sd = false /\ user_login c payload name db p u) \/ admin_login c payload name db) ->
+  let r := startup md5 chk c sd salt payload (code :: r0) e in
+  out r = Rejected (WExpectedP code) /\ replies r = [RMd5Request salt] /\ events r = [].
+Proof.
+  intros c sd salt payload e name db code r0 Hc [(p & u & -> & Hl)|Hl] r; subst r.
+  - rewrite (startup_user _ _ _ _ _ _ _ _ _ Hl). unfold user_md5. rewrite read_password_not_p by assumption. auto.
+  - rewrite (startup_admin _ _ _ _ _ _ _ _ Hl). unfold admin_md5. rewrite read_password_not_p by assumption. auto.
+Qed.
+
+(** EOF in place of the PasswordMessage *)
+Lemma silent_rejected : forall c sd salt payload e name db,
+  ((exists p u, sd = false /\ user_login c payload name db p u) \/ admin_login c payload name db) ->
+  let r := startup md5 chk c sd salt payload [] e in
+  out r = Rejected (WSocket 0) /\ replies r = [RMd5Request salt] /\ events r = [].
+Proof.
+  intros c sd salt payload e name db [(p & u & -> & Hl)|Hl] r; subst r.
+  - rewrite (startup_user _ _ _ _ _ _ _ _ _ Hl). unfold user_md5. cbn. auto.
+  - rewrite (startup_admin _ _ _ _ _ _ _ _ Hl). unfold admin_md5. cbn. auto.
+Qed.
+
+(** a declared length below 4 *)
+Lemma short_len_panics : forall c sd salt payload e name db a b c0 d r0,
+  i32_of a b c0 d < 4 -> (chk = true \/ -2147483644 <= i32_of a b c0 d) ->
+  ((exists p u, sd = false /\ user_login c payload name db p u) \/ admin_login c payload name db) ->
+  let r := startup md5 chk c sd salt payload (112%N :: a :: b :: c0 :: d :: r0) e in
+  out r = TaskPanic /\ replies r = [RMd5Request salt] /\ events r = [].
+Proof.
+  intros c sd salt payload e name db a b c0 d r0 Hlen Hchk [(p & u & -> & Hl)|Hl] r; subst r.
+  - rewrite (startup_user _ _ _ _ _ _ _ _ _ Hl). unfold user_md5. rewrite read_password_short_len by assumption. auto.
+  - rewrite (startup_admin _ _ _ _ _ _ _ _ Hl). unfold admin_md5. rewrite read_password_short_len by assumption. auto.
+Qed.
+
+(** ... and in every build it never admits, as long as digests are shorter than a gigabyte *)
+Lemma short_len_never_admits : forall c sd salt payload e a b c0 d r0,
+  (forall x, blen (md5 x) < 1000000000) ->
+  i32_of a b c0 d < 4 ->
+  (forall name db, ident payload = IdOk name db -> is_admin_db db = false -> ~ trust c db name) ->
+  (forall name db, ident payload = IdOk name db -> is_admin_db db = true -> admin_auth c = MD5) ->
+  is_admitted (out (startup md5 chk c sd salt payload (112%N :: a :: b :: c0 :: d :: r0) e)) = false.
+Proof.
+  intros c sd salt payload e a b c0 d r0 Hmd Hlen Hnt Had.
+  pose proof (read_password_wrapped chk a b c0 d r0 Hlen) as Hw.
+  assert (Hexp : forall h s, blen (pg_md5_of_shadow md5 h s) < 2147483644).
+  { intros h s. unfold pg_md5_of_shadow, blen. rewrite !app_length. cbn [length].
+    assert (Hh : forall l, length (pg_hex l) = (2 * length l)%nat) by (induction l as [|x l IH]; cbn [pg_hex flat_map app length] in *; [reflexivity|unfold pg_hex in IH; rewrite IH; lia]).
+    rewrite Hh. specialize (Hmd (h ++ s)). unfold blen in Hmd. lia. }
+  destruct (out (startup md5 chk c sd salt payload (112%N :: a :: b :: c0 :: d :: r0) e)) as [db name| | | |] eqn:Ho; try reflexivity; exfalso.
+  - apply admit_sound in Ho. destruct Ho as (Hi & _ & Ha & _ & [Ht|(body & tail & s & Hr & _ & He)]).
+    + exact (Hnt _ _ Hi Ha Ht).
+    + rewrite Hr in Hw. subst body. destruct s as [pw|h]; cbn [expected] in Hw; [unfold pg_md5 in Hw|];
+        match type of Hw with _ <= blen (pg_md5_of_shadow _ ?h ?s) => specialize (Hexp h s) end; lia.
+  - apply admin_sound in Ho. destruct Ho as (name & db & Hi & Ha & [Ht|(body & tail & Hr & He)]).
+    + rewrite (Had _ _ Hi Ha) in Ht. discriminate.
+    + rewrite Hr in Hw. subst body. unfold pg_md5 in Hw.
+      match type of Hw with _ <= blen (pg_md5_of_shadow _ ?h ?s) => specialize (Hexp h s) end. lia.
+Qed.
+
+(** *** and the right answer is accepted (the hypotheses above are not vacuous) *)
+Lemma correct_response_admitted : forall c salt payload e name db p u pw tail,
+  user_login c payload name db p u -> u_password u = Some pw ->
+  blen (pg_md5 md5 name pw salt) + 4 < 2147483648 ->
+  validated e = true \/ validate_ok e = true ->
+  let r := startup md5 chk c false salt payload (password_frame (pg_md5 md5 name pw salt) ++ tail) e in
+  out r = PoolAdmitted db name /\ exists pre, replies r = RMd5Request salt :: auth_tail /\ pre = [RMd5Request salt].
+Proof.
+  intros c salt payload e name db p u pw tail Hl Hp Hb Hv r. subst r.
+  rewrite (startup_user _ _ _ _ _ _ _ _ _ Hl). unfold user_md5.
+  rewrite read_password_frame by assumption. rewrite Hp, hash_password_eq, bytes_eqb_refl.
+  unfold finish_user. destruct (validated e); [cbn; eauto|].
+  destruct Hv as [Hv|Hv]; [discriminate|]. rewrite Hv. cbn. eauto.
+Qed.
+
+End Wrong.
+
+(** ** the first packet *)
+
+Lemma get_startup_short_len : forall a b c d r, i32_of a b c d < 4 -> get_startup (a :: b :: c :: d :: r) = GsPanic.
+Proof. intros. cbn [get_startup]. destruct (i32_of a b c d <? 4) eqn:E; [reflexivity|apply Z.ltb_ge in E; lia]. Qed.
+
+Lemma startup_alloc_bound : forall a b c d r, byte_ok a -> byte_ok b -> byte_ok c -> byte_ok d ->
+  0 <= startup_alloc (a :: b :: c :: d :: r) <= 2147483643.
+Proof.
+  intros a b c d r Ha Hb Hc Hd. unfold startup_alloc, byte_ok in *.
+  cbv zeta. destruct (i32_of a b c d <? 4) eqn:E; [lia|]. apply Z.ltb_ge in E.
+  unfold i32_of in *. cbv zeta in *. destruct (_ <? 2147483648) eqn:E2; [apply Z.ltb_lt in E2|apply Z.ltb_ge in E2]; lia.
+Qed.
+
+Lemma entry_panics_on_short_len : forall md5 chk c sd salt a b c0 d r e, i32_of a b c0 d < 4 ->
+  entry md5 chk c sd salt (a :: b :: c0 :: d :: r) e = mk TaskPanic [] [] (cached e).
+Proof. intros. unfold entry. rewrite get_startup_short_len by assumption. reflexivity. Qed.
+
+(** admission through [entry] is admission through [startup] on the packet found in the stream *)
+Lemma entry_admitted_via_startup : forall md5 chk c sd salt stream e,
+  is_admitted (out (entry md5 chk c sd salt stream e)) = true ->
+  exists payload rest, out (entry md5 chk c sd salt stream e) = out (startup md5 chk c sd salt payload rest e) /\
+    (get_startup stream = GsOk CtStartup payload rest \/
+     exists p0 r0, get_startup stream = GsOk CtTls p0 r0 /\ get_startup r0 = GsOk CtStartup payload rest /\
+                   (tls c = true -> tls_ok e = true)).
+Proof.
+  intros md5 chk c sd salt stream e H. unfold entry in *.
+  destruct (get_startup stream) as [[| |] payload rest| | |] eqn:Eg; try discriminate.
+  - destruct (tls c) eqn:Et.
+    + destruct (tls_ok e) eqn:Eo; [|discriminate].
+      destruct (get_startup rest) as [[| |] p2 r2| | |] eqn:Eg2; try discriminate.
+      exists p2, r2. split; [reflexivity|]. right. exists payload, rest. auto.
+    + destruct (get_startup rest) as [[| |] p2 r2| | |] eqn:Eg2; try discriminate.
+      exists p2, r2. split; [reflexivity|]. right. exists payload, rest. repeat split; auto. discriminate.
+  - exists payload, rest. auto.
+Qed.
